@@ -113,6 +113,91 @@ def transfer_slow(verb, n, off, oldlen, lat):
     return transfer(verb, n, 2, off, oldlen, 1, 2, 3, lat=lat)
 
 
+def cross_session(variant, n, lat):
+    """session A downloads f; session B replaces f (variant 0: DELE + STOR, 1: STOR tmp + DELE + RNFR/RNTO, 2: STOR over it,
+    3: APPE) and has its completion reply; A downloads f again and asks MLST: A sees exactly the new content"""
+    hb.KEY = ""
+    variant, n, lat = hb.conc(variant, 0, 3), hb.conc(n, 0, 5), hb.conc(lat, 0, 2)
+    user = aioftp.User("bob", None, base_path="/srv")
+    server = st.make_server([user], block_size=2)
+    old = OLD[:4]
+    new = PATTERN[:n]
+    st.build_tree(server, {"/srv": "dir", "/srv/d": "dir", "/srv/d/f": old})
+    LS.started.clear()
+    LS.fail = None
+    hb.SpyPathIO.reset(latency=lat)
+    loop = hb.new_loop()
+    wa, wb = hb.CollectWriter(), hb.CollectWriter()
+    datas = {}
+
+    def conn_of(writer):
+        for key, c in server.connections.items():
+            if key.writer is writer:
+                return c
+        return None
+
+    def login(writer):
+        def f():
+            st.inject(server, conn_of(writer), dict(user=user, logged=True, cwd="/d"), LS)
+        return f
+
+    def connect(name, writer, payload):
+        def f():
+            mine = conn_of(writer).passive_server
+            live = [(p, cb, l) for p, cb, l in LS.started if l is mine]
+            dr, dw = hb.ScriptReader([(1, payload)] if payload else [], eof=True), hb.CollectWriter()
+            datas[name] = dw
+            asyncio.ensure_future(live[-1][1](dr, dw))
+        return f
+
+    L = st.Line  # (NOOP is not implemented by the server: 502; it only serves as a carrier for the hooks)
+    ra = st.HookReader([(10, L("NOOP\r\n"), login(wa)), (10, L("PASV\r\n"), None), (10, L("RETR f\r\n"), connect("a1", wa, b"")),
+                        (400, L("PASV\r\n"), None), (10, L("RETR f\r\n"), connect("a2", wa, b"")), (100, L("MLST f\r\n"), None), (100, L("NOOP\r\n"), None)], eof=True)
+    if variant == 0:
+        b_lines = [(100, "DELE f", None), (20, "PASV", None), (10, "STOR f", ("b", new))]
+    elif variant == 1:
+        b_lines = [(100, "PASV", None), (10, "STOR tmp", ("b", new)), (60, "DELE f", None), (20, "RNFR tmp", None), (20, "RNTO f", None)]
+    elif variant == 2:
+        b_lines = [(100, "PASV", None), (10, "STOR f", ("b", new))]
+    else:
+        b_lines = [(100, "PASV", None), (10, "APPE f", ("b", new))]
+    items = [(12, L("NOOP\r\n"), login(wb))]
+    for gap, text, dc in b_lines:
+        items.append((gap, L(text + "\r\n"), connect(dc[0], wb, dc[1]) if dc else None))
+    rb = st.HookReader(items + [(100, L("NOOP\r\n"), None)], eof=True)
+    ra.final_gap = rb.final_gap = 10
+
+    async def both():
+        await asyncio.gather(server.dispatcher(ra, wa), server.dispatcher(rb, wb))
+
+    try:
+        loop.run_until_complete(both())
+    finally:
+        hb.SpyPathIO.latency = 0
+    want = (old + new) if variant == 3 else new
+    ca = [c for c, sep, _ in hb.reply_codes(wa) if sep == " "]
+    cb = [c for c, sep, _ in hb.reply_codes(wb) if sep == " "]
+    hb.path_done("c01_cross", ",".join(ca) + "|" + ",".join(cb))
+    want_b = {0: ["220", "502", "250", "227", "150", "226", "502"], 1: ["220", "502", "227", "150", "226", "250", "350", "250", "502"],
+              2: ["220", "502", "227", "150", "226", "502"], 3: ["220", "502", "227", "150", "226", "502"]}[variant]
+    if cb != want_b or ca != ["220", "502", "227", "150", "226", "227", "150", "226", "250", "502"]:
+        hb.KEY = "cross-replies"
+        return False
+    if datas["a1"].data() != old:
+        hb.KEY = "cross-first-download"
+        return False
+    if datas["a2"].data() != want:
+        hb.KEY = "cross-stale-download"
+        return False
+    if not any(("Size=%d;" % len(want)) in (c + s + t) for c, s, t in hb.reply_codes(wa)):
+        hb.KEY = "cross-stale-stat"
+        return False
+    if st.tree_paths(server).get("/srv/d/f") != want or (variant == 1 and "/srv/d/tmp" in st.tree_paths(server)):
+        hb.KEY = "cross-tree"
+        return False
+    return True
+
+
 SPECIAL = [0, 10, 13, 255, 65, 26, 32, 127]  # NUL, LF, CR, IAC, 'A', SUB/EOF, space, DEL
 
 
